@@ -49,10 +49,10 @@ Definition of_body (b : body F_ops) : tree :=
 Definition t_marr (shape : list nat) (t : tree) : marr F_ops :=
   mkT shape (combine (t_fs (t_nth 0 t)) (t_bools (t_nth 1 t))).
 
-Definition body_op (op : Z) (np : bool) (b : body F_ops) (p : tree) : tree :=
-  let idx := t_nats (t_nth 0 p) in
-  if (op =? 1)%Z then of_result of_body ((if np then np_get_points F_ops else t_get_points F_ops) idx b)
-  else if (op =? 2)%Z then of_result of_body ((if np then np_select_frames F_ops else t_select_frames F_ops) idx b)
+Definition body_op (op : Z) (np tf : bool) (b : body F_ops) (p : tree) : tree :=
+  (* (extraction is strict: decode the parameters inside the branch that owns them) *)
+  if (op =? 1)%Z then of_result of_body ((if np then np_get_points F_ops else t_get_points F_ops) (t_nats (t_nth 0 p)) b)
+  else if (op =? 2)%Z then of_result of_body ((if np then np_select_frames F_ops else if tf then tf_select_frames F_ops else t_select_frames F_ops) (t_nats (t_nth 0 p)) b)
   else if (op =? 3)%Z then
     Nd [L 1; of_body (np_normalize F_ops FE (t_nat (t_nth 0 p)) (t_nat (t_nth 1 p)) (t_f (t_nth 2 p)) b)]
   else if (op =? 4)%Z then
@@ -64,7 +64,7 @@ Definition body_op (op : Z) (np : bool) (b : body F_ops) (p : tree) : tree :=
   else if (op =? 7)%Z then
     Nd [L 1; of_body ((if np then np_matmul F_ops else t_matmul F_ops) (t_nat (t_nth 0 p)) (t_fs (t_nth 1 p)) b)]
   else if (op =? 8)%Z then of_result of_body (np_interpolate F_ops FE (t_nat (t_nth 0 p)) (t_nat (t_nth 1 p)) b)
-  else if (op =? 9)%Z then of_result of_body (np_bbox F_ops FE idx b)
+  else if (op =? 9)%Z then of_result of_body (np_bbox F_ops FE (t_nats (t_nth 0 p)) b)
   else if (op =? 10)%Z then of_result (fun r => Nd [of_body (fst r); of_fs (snd r)]) (np_focus F_ops FE b)
   else if (op =? 11)%Z then
     (if np then Nd [L 1; of_body (np_zero_filled F_ops b)] else Nd [L 1; of_tensorT (t_zero_filled F_ops b)])
@@ -89,5 +89,5 @@ Definition c09_dispatch (t : tree) : tree :=
     let raw := mkT shp (t_fs (t_nth 3 t)) in
     let conf := mkT (removelast shp) (t_fs (t_nth 4 t)) in
     let b := if np then np_ctor F_ops (of_plain F_ops raw) conf else t_ctor_plain F_ops raw conf in
-    body_op op np b (t_nth 5 t)
+    body_op op np (t_z (t_nth 1 t) =? 2)%Z b (t_nth 5 t)
   else rep_op op np (map (t_marr shp) (t_list (t_nth 3 t))).
